@@ -2,7 +2,10 @@
 
 package sanitize
 
-import "sort"
+import (
+	"io"
+	"sort"
+)
 
 // Verification hooks (add-only, build tag `verif`): unexported pieces of the sanitiser under Verif… names.
 
@@ -11,6 +14,9 @@ func VerifSanitizeStyle(input string) string { return sanitizeStyle(input) }
 
 // VerifSanitizeStyleTags is sanitizeStyleTags (the x/net/html token filter, before bluemonday).
 func VerifSanitizeStyleTags(input string) (string, error) { return sanitizeStyleTags(input) }
+
+// VerifStyleTagFilter is styleTagFilter itself (any reader / writer: lets the harness inject a read error).
+func VerifStyleTagFilter(w io.Writer, r io.Reader) error { return styleTagFilter(w, r) }
 
 // VerifPolicySanitize is the bluemonday policy alone.
 func VerifPolicySanitize(input string) string { return policy.Sanitize(input) }
